@@ -1108,7 +1108,7 @@ impl Check for C07
 	}
 	fn rule(&self) -> String
 	{
-		"(a) exhaustive matrix: 16 binary/comparison operators x 13 x 13 primitive operand types in a one-function module (2704 cells), plus 13 x 13 `as` casts and unary - and ! on every type (195 cells); (b) 20 kinds of typed edits with a known E5xx/E333 code (assignment, initialisation, argument type/count, operand mismatch, index type, index/length/member on a non-aggregate, address assignment, address depth, bool operand, casts to bool / pointer / from struct, member assignment, return value) over random pairs of integer types inside valid surroundings; (b2) well-typed generated programs with ONE type-breaking edit at a site whose required type is fixed by its surroundings — a value argument in any position of a call, a structure argument replaced by a literal of another structure, a typed initialiser, a return value, the right operand of an operator/comparison whose left operand has an evident type, an array index — replaced by a suffixed literal of another type: must be rejected with a typing code (E500-E552, E333); (b3) every operator on two pointers of one type (pointees i32, u8, bool, &i32, Pt) and on two structures: only == and != of pointers are accepted; (c) a walker over the resolved trees of every accepted matrix cell and of generated programs asserting: both operands of every binary operator and comparison have the identical recorded type, operator classes (arithmetic on integers, bitwise/shift on u8..u128, negation on signed, ! on unsigned/bool, no ordering of pointers), initialiser/declared, argument/parameter, return value/return type identical (coercions are explicit Autocoerce nodes), primitive casts only between primitives, indices usize. Oracle: allowed cells accepted, forbidden cells rejected with E550/E551/E552; edits rejected with their code; invariants hold. Cells the docs do not settle (char8 arithmetic, usize bitwise/shift, bool ordering, identity casts) are run and walked but not asserted. Non-trivial: every case; distinct by source.".into()
+		"(a) exhaustive matrix: 16 binary/comparison operators x 13 x 13 primitive operand types in a one-function module (2704 cells), plus 13 x 13 `as` casts and unary - and ! on every type (195 cells); (b) 20 kinds of typed edits with a known E5xx/E333 code (assignment, initialisation, argument type/count, operand mismatch, index type, index/length/member on a non-aggregate, address assignment, address depth, bool operand, casts to bool / pointer / from struct, member assignment, return value) over random pairs of integer types inside valid surroundings; (b2) well-typed generated programs with ONE type-breaking edit at a site whose required type is fixed by its surroundings — a value argument in any position of a call, a structure argument replaced by a literal of another structure, a typed initialiser, a return value, the right operand of an operator/comparison whose left operand has an evident type, an array index — replaced by a suffixed literal of another type: must be rejected with a typing code (E500-E552, E333); (b3) every operator on two pointers of one type (pointees i32, u8, bool, &i32, Pt) and on two structures: only == and != of pointers are accepted; (b4) every array argument [k]T, [2][k]T, [2][k][q]T given to a view or slice-pointer parameter []U, [][n]U, [][n][r]U (176 cells): only the outermost length may be dropped, every inner length and the element type must be identical; (c) a walker over the resolved trees of every accepted matrix cell and of generated programs asserting: both operands of every binary operator and comparison have the identical recorded type, operator classes (arithmetic on integers, bitwise/shift on u8..u128, negation on signed, ! on unsigned/bool, no ordering of pointers), initialiser/declared, argument/parameter, return value/return type identical (coercions are explicit Autocoerce nodes), primitive casts only between primitives, indices usize. Oracle: allowed cells accepted, forbidden cells rejected with E550/E551/E552; edits rejected with their code; invariants hold. Cells the docs do not settle (char8 arithmetic, usize bitwise/shift, bool ordering, identity casts) are run and walked but not asserted. Non-trivial: every case; distinct by source.".into()
 	}
 	fn assumptions(&self) -> Vec<String>
 	{
